@@ -123,12 +123,14 @@ func build(prop string, c propCfg, cover bool) (string, error) {
 }
 
 type shardOutcome struct {
-	res      *vh.Result
-	crashed  bool
-	timedOut bool
-	logPath  string
-	crashMsg string
-	lastCase string
+	res        *vh.Result
+	partial    *vh.Result // flushed before a crash
+	controlled bool
+	crashed    bool
+	timedOut   bool
+	logPath    string
+	crashMsg   string
+	lastCase   string
 }
 
 func runShard(bin, prop, tier string, seed string, i, n int, wdir string, timeout time.Duration, extraEnv []string, attempt int) shardOutcome {
@@ -155,13 +157,21 @@ func runShard(bin, prop, tier string, seed string, i, n int, wdir string, timeou
 	so := shardOutcome{logPath: logPath}
 	if b, e := os.ReadFile(outPath); e == nil {
 		var r vh.Result
-		if json.Unmarshal(b, &r) == nil && r.Done {
-			so.res = &r
+		if json.Unmarshal(b, &r) == nil {
+			if r.Done {
+				so.res = &r
+			} else {
+				so.partial = &r
+			}
 		}
 	}
 	if err != nil || so.res == nil {
 		if ee, ok := err.(*exec.ExitError); ok && ee.ExitCode() == 124 {
 			so.timedOut = true
+		}
+		// exit code 97: the child recorded a verdict for the current case itself (e.g. a hang), flushed, and asks to be restarted after it
+		if ee, ok := err.(*exec.ExitError); ok && ee.ExitCode() == 97 && so.partial != nil {
+			so.controlled = true
 		}
 		// a test binary exits 1 when t.Error was called; that is fine if the result file is complete
 		if so.res == nil {
@@ -324,7 +334,9 @@ func main() {
 	nres := 0
 	for i := range outcomes {
 		for _, so := range outcomes[i] {
-			if so.crashed {
+			if so.crashed && so.controlled {
+				// verdict already inside the partial result
+			} else if so.crashed {
 				fp := fmt.Sprintf("%s|fatal|%s", prop, so.crashMsg)
 				what := fmt.Sprintf("child process died (%s) at case %q; log %s", so.crashMsg, so.lastCase, so.logPath)
 				if so.timedOut {
@@ -339,9 +351,14 @@ func main() {
 				} else {
 					inconclusive = append(inconclusive, what)
 				}
-				continue
+				if so.partial == nil {
+					continue
+				}
 			}
 			r := so.res
+			if r == nil {
+				r = so.partial
+			}
 			nres++
 			merged.Evaluations += r.Evaluations
 			merged.Distinct += r.Distinct
